@@ -38,6 +38,18 @@ def produce2(case_id):
     return _produce("produce2", case_id)
 
 
+@m.memento_function(version="d1")
+def decorate(case_id):
+    """Finishes, in place, the list or dictionary that a nested call returned, and returns that very object (C02)."""
+    REC.hit("decorate", case_id)
+    r = produce(case_id)
+    if isinstance(r, list):
+        r.append("finished")
+    elif isinstance(r, dict):
+        r["finished"] = True
+    return r
+
+
 @m.memento_function(version="x1")
 def calls_c(case_id):
     """A function of the default cluster whose body calls a function of cluster c (C19)."""
